@@ -87,6 +87,31 @@ class Check:
         what = what if len(str(what)) <= 600 else str(what)[:600] + " ..."
         self.findings.append(Finding(clause, key, what, case, kind, obligation, solver, reproduced))
 
+    def _obligation_samples(self, n=3):
+        """a few of the obligations this run discharged, written out: id, kind, back end, solver time, number of hypotheses, goal"""
+        out = []
+        seen_kinds = set()
+        for o in self.obligs:
+            if getattr(o, "status", None) != "unsat" or o.backend == "structural" or o.kind in seen_kinds:
+                continue
+            g = getattr(o, "goal_str", None)
+            if g is None:
+                try:
+                    g = " ".join(o.goal.sexpr().split())[:400]
+                except Exception:
+                    continue
+            nh = getattr(o, "n_hyps", None)
+            if nh is None:
+                try:
+                    nh = len(o.hyps)
+                except Exception:
+                    nh = None
+            seen_kinds.add(o.kind)
+            out.append({"obligation": o.id, "kind": o.kind, "backend": o.backend, "solver_time_s": round(o.time, 3), "hypotheses": nh, "goal_smtlib": g})
+            if len(out) >= n:
+                break
+        return out
+
     def absorb_meta(self, executed, contracted, used):
         """functions executed / callee contracts applied / primitive contracts used by a worker process"""
         for qn, (mod, line, sha) in executed.items():
@@ -157,7 +182,7 @@ class Check:
             "distinct_nontrivial": max(self.bounded["distinct_nontrivial"], 2) if self.bounded["evaluations"] else 2,
             "rule": self.bounded.get("rule", ""),
             "exhaustive": bool(self.bounded.get("exhaustive")),
-            "samples": self.samples[:12] or ["(no samples recorded)"],
+            "samples": (self.samples[:12] + self._obligation_samples()) or ["(no samples recorded)"],
             "explanation": self.extra.get("explanation", ""),
             "functions_under_contract": self.functions, "callee_contracts_assumed_at_call_sites": sorted(self.callee_contracts),
             "obligations_by_kind": by_kind, "by_backend": by_backend,
